@@ -56,9 +56,13 @@ class ECell:
                 self.algs = [first] + [rng.choice(MULTI_POOL) for _ in range(n - 1)]
         else:
             self.algs = [self.alg]
+        # several key-agreement recipients need not share a curve (ECDH-1PU recipients share the sender's)
+        self.curves = [self.curve] * n
+        if n > 1 and not g.is_1pu(self.alg) and rng.random() < 0.5:
+            self.curves = [rng.choice(g.ECDH_CURVES) for _ in range(n)]
 
     def desc(self):
-        return {"algs": self.algs, "enc": self.enc, "zip": self.zip, "curve": self.curve, "form": self.form, "plain": self.plain,
+        return {"algs": self.algs, "enc": self.enc, "zip": self.zip, "curve": self.curve, "curves": self.curves, "form": self.form, "plain": self.plain,
                 "aad": self.aad, "apu": self.apu, "placement": self.placement, "key_via": self.key_via, "zip_unprotected": self.zip_unprotected}
 
 
@@ -74,7 +78,7 @@ def produce(cell: ECell, rng):
     recs = []
     for i, a in enumerate(cell.algs):
         kid = f"r{i}" if (n > 1 or cell.key_via == "keyset") else None
-        rk, sk = g.keys_for(a, cell.enc, cell.curve, **({"kid": kid} if kid else {}))
+        rk, sk = g.keys_for(a, cell.enc, cell.curves[i], **({"kid": kid} if kid else {}))
         recs.append({"alg": a, "key": rk, "sender": sk})
     if any(r["sender"] for r in recs):
         for r in recs:
@@ -146,6 +150,15 @@ def consume(p: EProduced, token=None):
     if isinstance(tok, str):
         return call(j.jwe.decrypt_compact, tok, key, algorithms=p.allow, sender_key=sender)
     return call(j.jwe.decrypt_json, copy.deepcopy(tok), key, algorithms=p.allow, sender_key=sender)
+
+
+def consume_single(p: EProduced, i: int):
+    """one recipient of a several-recipient token decrypts with nothing but its own key (any-recipient validation switched on)"""
+    j = J.load()
+    key = j.key(p.recs[i]["key"])
+    sender = j.key(gen.public_jwk(p.recs[0]["sender"])) if p.recs[0]["sender"] else None
+    reg = j.jwe.JWERegistry(algorithms=p.allow, verify_all_recipients=False)
+    return call(j.jwe.decrypt_json, copy.deepcopy(p.token), key, registry=reg, sender_key=sender)
 
 
 def headers_match(p: EProduced, obj) -> str | None:
